@@ -253,7 +253,8 @@ def check(case, acc, tmp):
     N, Mm = case['shape']
     D = np.array(case['vals'], float).reshape(N, Mm)
     oids, sids = OID[:N], SID[:Mm]
-    omd = [{'k': 'v%d' % i, 'taxonomy': ['a', 'b%d' % i]} for i in range(N)] if case['md'] else None
+    omd = [({'k': 'v%d' % i, 'taxonomy': ['a', 'b%d' % i]} if i % 2 == 0 else
+            {'taxonomy': ['a', 'b%d' % i], 'k': 'v%d' % i}) for i in range(N)] if case['md'] else None
     smd = [{'g': 'w%d' % j} for j in range(Mm)] if case['md'] else None
     ttype = 'OTU table'
     if any(case['vals']):
@@ -356,9 +357,9 @@ PRESERVING = [('sort_inv', 'sample'), ('sort_inv', 'observation'), ('filter_all_
               ('subsample_full',), ('TT',), ('copy',), ('rename_identity', 'sample'),
               ('rename_identity', 'observation'), ('nnz',), ('col',), ('row',), ('iter_s',), ('iter_o',),
               ('pairwise',), ('eq',), ('desc',), ('sum',), ('reduce',), ('tsv',), ('tsv_md',), ('hdf5',),
-              ('dataframe',), ('minmax',)]
+              ('dataframe',), ('minmax',), ('interleaved',)]
 READS = ('nnz', 'col', 'row', 'iter_s', 'iter_o', 'pairwise', 'eq', 'desc', 'sum', 'reduce', 'tsv', 'tsv_md',
-         'hdf5', 'dataframe', 'minmax')
+         'hdf5', 'dataframe', 'minmax', 'interleaved')
 
 B_CONTENTS = {
     'c1': ([[1, 0, 2], [0, 3, 0], [2, 0, 1]], True),      # column sums equal -> subsample_full applies
@@ -381,6 +382,9 @@ def b_starts():
         omd = [{'k': 'v%d' % i} for i in range(N)] if md else None
         if md and cname in ('c3', 'c6'):
             omd[0]['taxonomy'] = ['a', 'b']       # ragged: the other observations lack the category
+        if md and cname in ('c1', 'c4'):
+            # the same categories on every id, but written in a different key order
+            omd = [({'k': 'v%d' % i, 'z': i} if i % 2 == 0 else {'z': i, 'k': 'v%d' % i}) for i in range(N)]
         smd = [{'g': 'w%d' % j} for j in range(Mm)] if md else None
         m = M(oids, sids, D.tolist(), omd, smd, 'OTU table')
         for rn in B_ROUTES:
@@ -390,6 +394,9 @@ def b_starts():
                 (lambda rn=rn, D=D, oids=oids, sids=sids, omd=omd, smd=smd:
                  route(rn, D, oids, sids, omd, smd, 'OTU table')), m)
     return S
+
+
+_DISAGREE = []     # filled by read ops that compare what they read with the matrix
 
 
 def b_apply(op, t, m, strict=True):
@@ -453,6 +460,15 @@ def b_apply(op, t, m, strict=True):
     elif n == 'reduce':
         t.reduce(lambda a, b: a + b, 'sample')
         list(t.nonzero())
+    elif n == 'interleaved':
+        # two live iterators over different axes advanced in lock-step: what each yields must be the matrix
+        D = np.asarray(t.matrix_data.toarray(), float)
+        k = 0
+        for (vo, io, _), (vs, is_, _) in zip(t.iter(axis='observation'), t.iter(axis='sample')):
+            if not (np.array_equal(np.asarray(vo, float), D[k, :]) and np.array_equal(np.asarray(vs, float), D[:, k])):
+                _DISAGREE.append('interleaved iteration step %d yields %r / %r, the matrix holds %r / %r'
+                                       % (k, list(vo), list(vs), list(D[k, :]), list(D[:, k])))
+            k += 1
     elif n == 'tsv':
         t.to_tsv()
         t.to_json('x')
@@ -490,6 +506,8 @@ def b_on_state(t, m, report):
 
 def b_on_transition(tr, report):
     """a read-only accessor / export must not change what the table holds"""
+    while _DISAGREE:
+        report('read-accessor-disagrees:' + tr.op[0], _DISAGREE.pop())
     if tr.op[0] in READS and not tr.raised and O.content(tr.recv) != tr.before:
         after = O.content(tr.recv)
         what = [n for n, a, b in zip(('observation ids', 'sample ids', 'values', 'observation metadata',
